@@ -208,6 +208,7 @@ pub fn exec(obj: &Obj, loc: &mut Locals, op: &Value) -> Value {
         Obj::Counter(c) => match k {
             "inc" => { if t.scale == 1.0 { c.inc() } else { c.inc_by(t.scale) }; json!(0) }
             "incby" => { c.inc_by(v * t.scale); json!(0) }
+            "get" if op.get("via").and_then(|x| x.as_str()) == Some("metric") => { use prometheus::core::Metric; num(crate::pm::counter_value(&c.metric()) / t.scale) }
             "get" => num(c.get() / t.scale),
             "reset" => { c.reset(); json!(0) }
             "lflush" => {
@@ -221,6 +222,7 @@ pub fn exec(obj: &Obj, loc: &mut Locals, op: &Value) -> Value {
         Obj::IntCounter(c) => match k {
             "inc" => { c.inc(); json!(0) }
             "incby" => { c.inc_by(v as u64); json!(0) }
+            "get" if op.get("via").and_then(|x| x.as_str()) == Some("metric") => { use prometheus::core::Metric; json!(crate::pm::counter_value(&c.metric()) as u64) }
             "get" => json!(c.get()),
             "reset" => { c.reset(); json!(0) }
             "lflush" => {
@@ -237,6 +239,7 @@ pub fn exec(obj: &Obj, loc: &mut Locals, op: &Value) -> Value {
             "dec" => { if t.scale == 1.0 { g.dec() } else { g.sub(t.scale) }; json!(0) }
             "add" => { g.add(v * t.scale); json!(0) }
             "sub" => { g.sub(v * t.scale); json!(0) }
+            "get" if op.get("via").and_then(|x| x.as_str()) == Some("metric") => { use prometheus::core::Metric; num(crate::pm::gauge_value(&g.metric()) / t.scale) }
             "get" => num(g.get() / t.scale),
             _ => panic!("op {}", k),
         },
@@ -246,6 +249,7 @@ pub fn exec(obj: &Obj, loc: &mut Locals, op: &Value) -> Value {
             "dec" => { g.dec(); json!(0) }
             "add" => { g.add(vi); json!(0) }
             "sub" => { g.sub(vi); json!(0) }
+            "get" if op.get("via").and_then(|x| x.as_str()) == Some("metric") => { use prometheus::core::Metric; json!((crate::pm::gauge_value(&g.metric()) as i64).wrapping_sub(t.base)) }
             "get" => json!(g.get().wrapping_sub(t.base)),
             _ => panic!("op {}", k),
         },
